@@ -524,7 +524,7 @@ End OneDirty.
 Lemma hs_state {A} (Iv : wpred) (m : M A) (Q : A -> Prop) s :
   hs Iv false m Q -> Iv (s_w s) -> Iv (s_w (snd (m s))).
 Proof.
-  intros H HI. specialize (H s HI I). destruct (m s) as [[a| | | |] s']; cbn [snd]; tauto.
+  intros H HI. specialize (H s HI I). destruct (m s) as [[a| | | |] s']; cbn [snd]; try exact H. exact (proj1 H).
 Qed.
 
 Lemma with_layers_keeps (Iv : wpred) um body s :
@@ -1624,13 +1624,119 @@ End Invocation.
 
 End WithCfg.
 
+(* ------------------------------------------------------------------ init *)
+Section InitCmd.
+Variables (c : cfgT) (Lc Ec Bc : list bytes).
+Hypothesis HLc : plains Lc.
+Hypothesis HL : c_layers c = pa Lc.
+Hypothesis HEc : plains Ec /\ c_exports c = pa Ec /\ (forall r1 r2, Lc ++ r1 <> Ec ++ r2).
+Hypothesis HBc : plains Bc /\ c_base c = pa Bc /\ (forall r, Bc <> Lc ++ r).
+
+Lemma not_under_L ps : plains ps -> (forall r, r <> [] -> ps <> Lc ++ r) -> under (pa Lc) (pa ps) = false.
+Proof. intros Pp H. now apply under_L_not. Qed.
+
+Lemma IB_mkdir_outside S f0 f ps f' : IB Lc S f0 f -> plains ps ->
+  (forall r t, r <> [] -> ps <> Lc ++ r ++ t) -> mkdir_all f (pa ps) = FOk f' -> IB Lc S f0 f'.
+Proof.
+  intros [H1 H2 H3] Pp Hout E. apply mkdir_all_shape in E as (new & -> & Hnew).
+  assert (Hd : forall q m, In (q, m) (dirs new) -> m = Dir /\ is_clean_abs q = true /\ under (pa Lc) q = false).
+  { intros q m Hin. unfold dirs in Hin. apply in_map_iff in Hin as (q' & Eq & Hq'). injection Eq as -> <-.
+    split; [reflexivity|]. destruct (Hnew _ Hq') as [Hp _].
+    apply prefixes_pa_in in Hp as (i & t & Hi & Ei & ->); [|exact Pp].
+    destruct (plains_prefix i t _ Pp Ei) as [Pi _]. split; [apply clean_abs_repr; eauto|].
+    apply not_under_L; [exact Pi|]. intros r Hr Eir. apply (Hout r t Hr). now rewrite Ei, Eir, <- app_assoc. }
+  constructor.
+  - intros q m Hin. apply in_app_or in Hin as [Hin|Hin]; [eapply H1; eauto|]. now apply (Hd q m).
+  - intros x t Px. rewrite fs_get_app. destruct (fs_get f (cfgp Lc x)) eqn:E; [rewrite <- E; now apply H2|].
+    intros E2. apply fs_get_In in E2. apply Hd in E2 as [E2 _]. discriminate.
+  - rewrite <- H3. apply Lpart_app. intros [q m] Hin. unfold Lpred. cbn [fst]. destruct (Hd q m Hin) as (_ & _ & ->). reflexivity.
+Qed.
+Lemma IB_put_outside S f0 f ps x : IB Lc S f0 f -> plains ps -> under (pa Lc) (pa ps) = false ->
+  IB Lc S f0 (f ++ [(pa ps, File x)]) /\ IB Lc S f0 (fs_set f (pa ps) (File x)).
+Proof.
+  intros [H1 H2 H3] Pp Hu.
+  assert (Hcfg : forall y, plain y -> pa ps <> cfgp Lc y).
+  { intros y Py E. rewrite E in Hu. unfold cfgp in Hu.
+    assert (under (pa Lc) (pa (Lc ++ [y; lcf])) = true); [|congruence].
+    apply under_pa; [exact HLc|apply plains_app; split; [exact HLc|constructor; [exact Py|constructor; [apply plain_lcf|constructor]]]|].
+    exists [y; lcf]. split; [discriminate|reflexivity]. }
+  split; constructor.
+  - intros p m Hin. apply in_app_or in Hin as [Hin|[Hin|[]]]; [eapply H1; eauto|]. injection Hin as <- _. apply clean_abs_repr; eauto.
+  - intros y t Py. rewrite fs_get_app. destruct (fs_get f (cfgp Lc y)) eqn:E; [rewrite <- E; now apply H2|].
+    cbn [fs_get]. destruct (beq _ _); discriminate.
+  - rewrite <- H3. apply Lpart_app. intros e [<-|[]]. unfold Lpred. cbn [fst]. now rewrite Hu.
+  - intros p m Hin. apply fs_set_In in Hin as [[-> _]|Hin]; [apply clean_abs_repr; eauto|eapply H1; eauto].
+  - intros y t Py. rewrite fs_get_set. destruct (beq (pa ps) (cfgp Lc y)) eqn:E; [discriminate|now apply H2].
+  - rewrite <- H3. apply Lpart_set. unfold Lpred. cbn [fst]. now rewrite Hu.
+Qed.
+
+Lemma plain_skel : plain D_SkeletonLayerconfigFile. Proof. apply plainb_spec. reflexivity. Qed.
+Lemma plain_index : plain D_ExportIndexHtmlName. Proof. apply plainb_spec. reflexivity. Qed.
+
+Lemma init_keeps e f0 : hs (fun w => IB Lc [] f0 (w_fs w)) false (init_base e c) (fun _ => True).
+Proof.
+  destruct HEc as (PE & EE & DE). destruct HBc as (PB & EB & DB).
+  unfold init_base. apply hs_get_fs_k. intros f. cbv zeta.
+  apply hs_seq.
+  { destruct (filter _ _); [now apply hs_ret|]. destruct (_ || _); [apply hs_fail|now apply hs_ret]. }
+  apply hs_seq.
+  { apply hs_mapM_. intros p Hp. apply filter_In in Hp as [Hp _].
+    unfold fs_mkdir. apply hs_true, hoare_do_op. intros w w' HI _ E. cbn [op_result] in E. unfold on_fres in E.
+    destruct (mkdir_all (w_fs w) p) as [f'|] eqn:Em; [|discriminate]. injection E as <-. cbn [set_fs w_fs].
+    destruct Hp as [<-|[<-|[<-|[]]]].
+    - rewrite EB in Em. apply (IB_mkdir_outside [] f0 (w_fs w) Bc f' HI PB); [|exact Em].
+      intros r t _ E. apply (DB (r ++ t)). exact E.
+    - rewrite HL in Em. apply (IB_mkdir_outside [] f0 (w_fs w) Lc f' HI HLc); [|exact Em].
+      intros r t Hr E. apply (f_equal (@length _)) in E. rewrite !app_length in E. destruct r; [congruence|cbn in E; lia].
+    - rewrite EE in Em. apply (IB_mkdir_outside [] f0 (w_fs w) Ec f' HI PE); [|exact Em].
+      intros r t _ E. apply (DE (r ++ t) []). now rewrite app_nil_r. }
+  apply hs_seq.
+  { apply hs_mapM_. intros pc Hpc. apply filter_In in Hpc as [Hpc _].
+    apply hs_true, hoare_write_text. intros w w' HI _ E. unfold write_result, on_fres in E.
+    destruct (write_text (w_fs w) (fst pc) (snd pc)) as [f'|] eqn:Ew; [|discriminate]. injection E as <-. cbn [set_fs w_fs].
+    assert (Hp : exists ps, plains ps /\ fst pc = pa ps /\ under (pa Lc) (pa ps) = false).
+    { destruct Hpc as [<-|[<-|[]]]; cbn [fst].
+      - exists (Bc ++ [D_SkeletonLayerconfigFile]). rewrite EB, pathjoin_pa1; auto using plain_skel.
+        split; [apply plains_app; split; [exact PB|constructor; [apply plain_skel|constructor]]|]. split; [reflexivity|].
+        apply not_under_L; [apply plains_app; split; [exact PB|constructor; [apply plain_skel|constructor]]|].
+        intros r Hr E. destruct r as [|x r'] using rev_ind; [congruence|]. rewrite app_assoc in E.
+        apply app_inj_tail in E as [E _]. now apply DB in E.
+      - exists (Ec ++ [D_ExportIndexHtmlName]). rewrite EE, pathjoin_pa1; auto using plain_index.
+        split; [apply plains_app; split; [exact PE|constructor; [apply plain_index|constructor]]|]. split; [reflexivity|].
+        apply not_under_L; [apply plains_app; split; [exact PE|constructor; [apply plain_index|constructor]]|].
+        intros r Hr E. destruct r as [|x r'] using rev_ind; [congruence|]. rewrite app_assoc in E.
+        apply app_inj_tail in E as [E _]. apply (DE r' []). now rewrite app_nil_r. }
+    destruct Hp as (ps & Pp & Ep & Hu). rewrite Ep in Ew.
+    apply write_text_shape in Ew as [[_ ->]|(o & _ & ->)]; now apply IB_put_outside. }
+  destruct (filter (fun pc => is_file f (fst pc)) _); [|apply hs_fail].
+  destruct (filter (fun p => negb (is_dir f p)) _); [|now apply hs_ret].
+  destruct (filter (fun pc => negb (is_file f (fst pc))) _); [apply hs_fail|now apply hs_ret].
+Qed.
+
+Lemma init_kept e um s : fs_clean (w_fs (s_w s)) -> nolink Lc (w_fs (s_w s)) -> gforest (G c (w_fs (s_w s))) ->
+  gforest (G c (w_fs (s_w (snd (run_command e c um CInit s))))).
+Proof.
+  intros Hc0 Hn0 HG. cbn [run_command].
+  assert (H : IB Lc [] (w_fs (s_w s)) (w_fs (s_w (snd ((init_base e c ;;; ret (@None ldefs)) s))))).
+  { pose proof (hs_state (fun w => IB Lc [] (w_fs (s_w s)) (w_fs w)) (init_base e c) _ s (init_keeps e _) (IB_refl Lc [] _ Hc0 Hn0)) as H.
+    unfold bind. destruct (init_base e c s) as [[u| | | |] s']; exact H. }
+  apply (gforest_ext (G c (w_fs (s_w s)))); [|exact HG]. intros x. symmetry.
+  apply (G_out c Lc HLc HL []); auto.
+  - apply (ib_clean _ _ _ _ H).
+  - apply (ib_nolink _ _ _ _ H).
+  - apply (ib_part _ _ _ _ H).
+  - intros y [].
+Qed.
+End InitCmd.
+
 (* ------------------------------------------------------------------ the decidable hypotheses *)
 Definition relokb (r : bytes) : bool := forallb plainb (psplit r).
 Definition cfg_ok (c : cfgT) : bool :=
   is_clean_abs (c_layers c) && is_clean_abs (c_exports c)
   && negb (at_or_under (c_layers c) (c_exports c)) && negb (at_or_under (c_exports c) (c_layers c))
   && relokb (c_buildroot c) && relokb (c_work c) && relokb (c_upper c)
-  && relokb (c_exp_binpkg c) && relokb (c_exp_gen c).
+  && relokb (c_exp_binpkg c) && relokb (c_exp_gen c)
+  && is_clean_abs (c_base c) && negb (at_or_under (c_layers c) (c_base c)).
 Definition is_cfg_path (c : cfgT) (p : bytes) : bool :=
   beq (pathdir (pathdir p)) (c_layers c) && beq (pathbase p) D_LayerconfigFile.
 Definition fs_ok (c : cfgT) (f : fsT) : bool :=
@@ -1647,25 +1753,30 @@ Proof.
 Qed.
 
 Lemma cfg_ok_spec c : cfg_ok c = true ->
-  exists Lc bsr wsr usr Ec bpr gpr,
+  exists Lc bsr wsr usr Ec bpr gpr Bc,
     plains Lc /\ c_layers c = pa Lc /\
     (plains bsr /\ bsr <> [] /\ c_buildroot c = pjoin bsr) /\
     (plains wsr /\ wsr <> [] /\ c_work c = pjoin wsr) /\
     (plains usr /\ usr <> [] /\ c_upper c = pjoin usr) /\
     (plains Ec /\ c_exports c = pa Ec /\ (forall r1 r2, Lc ++ r1 <> Ec ++ r2)) /\
     (plains bpr /\ bpr <> [] /\ c_exp_binpkg c = pjoin bpr) /\
-    (plains gpr /\ gpr <> [] /\ c_exp_gen c = pjoin gpr).
+    (plains gpr /\ gpr <> [] /\ c_exp_gen c = pjoin gpr) /\
+    (plains Bc /\ c_base c = pa Bc /\ (forall r, Bc <> Lc ++ r)).
 Proof.
-  unfold cfg_ok. rewrite !andb_true_iff. intros ((((((((H1 & H2) & H3) & H4) & H5) & H6) & H7) & H8) & H9).
+  unfold cfg_ok. rewrite !andb_true_iff.
+  intros ((((((((((H1 & H2) & H3) & H4) & H5) & H6) & H7) & H8) & H9) & H10) & H11).
   apply clean_abs_repr in H1 as (Lc & PL & EL). apply clean_abs_repr in H2 as (Ec & PE & EE).
+  apply clean_abs_repr in H10 as (Bc & PB & EB).
   destruct (relokb_spec _ H5) as (bsr & B). destruct (relokb_spec _ H6) as (wsr & W).
   destruct (relokb_spec _ H7) as (usr & U). destruct (relokb_spec _ H8) as (bpr & BP). destruct (relokb_spec _ H9) as (gpr & GP).
-  exists Lc, bsr, wsr, usr, Ec, bpr, gpr. repeat (split; [assumption|]). split; [|split; assumption].
-  split; [exact PE|]. split; [exact EE|]. intros r1 r2 E.
-  apply negb_true_iff in H3, H4. rewrite EL, EE in H3, H4.
-  destruct (list_prefix_comparable _ _ _ _ E) as [(r & Er)|(r & Er)].
-  - assert (at_or_under (pa Lc) (pa Ec) = true); [|congruence]. apply at_or_under_pa; auto. now exists r.
-  - assert (at_or_under (pa Ec) (pa Lc) = true); [|congruence]. apply at_or_under_pa; auto. now exists r.
+  exists Lc, bsr, wsr, usr, Ec, bpr, gpr, Bc. repeat (split; [assumption|]). split; [|split; [assumption|split; [assumption|]]].
+  - split; [exact PE|]. split; [exact EE|]. intros r1 r2 E.
+    apply negb_true_iff in H3, H4. rewrite EL, EE in H3, H4.
+    destruct (list_prefix_comparable _ _ _ _ E) as [(r & Er)|(r & Er)].
+    + assert (at_or_under (pa Lc) (pa Ec) = true); [|congruence]. apply at_or_under_pa; auto. now exists r.
+    + assert (at_or_under (pa Ec) (pa Lc) = true); [|congruence]. apply at_or_under_pa; auto. now exists r.
+  - split; [exact PB|]. split; [exact EB|]. intros r E. apply negb_true_iff in H11. rewrite EL, EB in H11.
+    assert (at_or_under (pa Lc) (pa Bc) = true); [|congruence]. apply at_or_under_pa; auto. now exists r.
 Qed.
 
 Lemma fs_ok_spec c Lc f : plains Lc -> c_layers c = pa Lc -> fs_ok c f = true ->
@@ -1685,7 +1796,7 @@ Qed.
 
 Definition in_scope (e : env) (cmd : command) (res : rclass) : bool :=
   covered cmd || e_pretend e
-  || match cmd, res with CRename _ _, ROk => true | _, _ => false end.
+  || match cmd, res with CRename _ _, ROk => true | CInit, _ => true | _, _ => false end.
 
 Theorem forest_preserved_run e c um cmd s :
   cfg_ok c = true -> fs_ok c (w_fs (s_w s)) = true ->
@@ -1695,14 +1806,16 @@ Theorem forest_preserved_run e c um cmd s :
   C02.forest_ok c (w_fs (s_w (snd (run_command e c um cmd s)))) = true.
 Proof.
   intros Hcfg Hfs Hnd Hsc HF.
-  destruct (cfg_ok_spec c Hcfg) as (Lc & bsr & wsr & usr & Ec & bpr & gpr & PL & EL & HB & HW & HU & HE & HBP & HGP).
+  destruct (cfg_ok_spec c Hcfg) as (Lc & bsr & wsr & usr & Ec & bpr & gpr & Bc & PL & EL & HB & HW & HU & HE & HBP & HGP & HBC).
   destruct (fs_ok_spec c Lc _ PL EL Hfs) as (Hc0 & Hn0 & Hcl0).
   apply (forest_ok_iff c) in HF. apply (forest_ok_iff c).
   unfold in_scope in Hsc. apply orb_true_iff in Hsc as [Hsc|Hsc]; [apply orb_true_iff in Hsc as [Hsc|Hsc]|].
   - now apply (forest_kept_covered c Lc PL EL bsr wsr usr HB HW HU Ec bpr gpr HE HBP HGP e um s Hc0 Hn0 Hcl0 HF cmd).
-  - rewrite (pretend_same c bsr wsr usr HB HW HU e um s (nodup_paths_NoDup _ Hnd) cmd Hsc). exact HF.
-  - destruct cmd; try discriminate. destruct (e_pretend e) eqn:Hp.
-    + rewrite (pretend_same c bsr wsr usr HB HW HU e um s (nodup_paths_NoDup _ Hnd) (CRename a b0) Hp). exact HF.
+  - rewrite (pretend_same c e um s (nodup_paths_NoDup _ Hnd) cmd Hsc). exact HF.
+  - destruct cmd; try discriminate.
+    { now apply (init_kept c Lc Ec Bc PL EL HE HBC e um s Hc0 Hn0 HF). }
+    destruct (e_pretend e) eqn:Hp.
+    + rewrite (pretend_same c e um s (nodup_paths_NoDup _ Hnd) (CRename a b0) Hp). exact HF.
     + pose proof (forest_kept_rename c Lc PL EL bsr wsr usr HB HW HU Ec bpr gpr HE HBP HGP e um s Hc0 Hn0 Hcl0 HF a b0 Hp) as H.
       destruct (run_command e c um (CRename a b0) s) as [[r| | | |] s']; try discriminate. exact H.
 Qed.
